@@ -18,7 +18,6 @@ NOT_APPLICABLE = {
     "C14": "'has the normalized chunks and the same values' is arithmetic over chunk tuples plus array values; its one structural ingredient (the unknown-size refusal in _validate_rechunk always runs) is checked under C28",
     "C15": "plan validity and the block-size budget are inequalities over products of chunk sizes (runtime integers); no sound static bound is in reach",
     "C18": "independence from chunking and tree shape is associativity/commutativity of numerical combine functions over values - not visible in code shape",
-    "C19": "window/scan kernels against their NumPy definitions: values and index arithmetic (_block_plan, depth/boundary maths)",
 }
 ALL = [f"C{i:02d}" for i in range(1, 30)]
 
@@ -46,7 +45,7 @@ def main():
                 "level_claimed": {
                     "category": "other",
                     "text": mod.LEVEL_TEXT,
-                    "design_ref": {"C16": "DESIGN.md section 9.7", "C24": "DESIGN.md section 9.9", "C22": "DESIGN.md section 9.11"}.get(pid, f"DESIGN.md section 4, {pid}"),
+                    "design_ref": {"C16": "DESIGN.md section 9.7", "C24": "DESIGN.md section 9.9", "C22": "DESIGN.md section 9.11", "C19": "DESIGN.md section 9.12"}.get(pid, f"DESIGN.md section 4, {pid}"),
                 },
                 "level_note": mod.LEVEL_NOTE,
                 "technique": mod.TECHNIQUE,
